@@ -2425,6 +2425,11 @@ namespace awkward {
 
   template <>
   bool ListOffsetArrayOf<int64_t>::is_subrange_equal(const Index64& starts, const Index64& stops) const {
+    if (dynamic_cast<NumpyArray*>(content_.get()) == nullptr) {
+      throw std::runtime_error(
+        std::string("FIXME: operation not yet implemented: ListOffsetArray::is_subrange_equal for lists of ")
+        + content_.get()->classname() + FILENAME(__LINE__));
+    }
     return content_.get()->is_subrange_equal(starts, stops);
   }
 
